@@ -148,15 +148,20 @@ func (r Registry) resolveImportConflict(a, b *Package, lvl int) {
 		}
 	}
 
-	for _, p := range []*Package{a, b} {
+	pair := []*Package{a, b}
+	if holder, ok := r.searchImport(a.uniqueName(lvl)); ok && holder == b {
+		// The name wanted for a is held by b: b has to give it up first.
+		pair = []*Package{b, a}
+	}
+
+	for _, p := range pair {
 		name := p.uniqueName(lvl)
 		// Even though the name is not conflicting with the other package we
 		// got, the new name we want to pick might already be taken. So check
 		// again for conflicts and resolve them as well. Since the name for
 		// this package would also get set in the recursive function call, skip
-		// setting the alias after it. A name held by the other package of
-		// this pair is about to be given up, so that is no conflict.
-		if conflict, ok := r.searchImport(name); ok && conflict != p && conflict != a && conflict != b {
+		// setting the alias after it.
+		if conflict, ok := r.searchImport(name); ok && conflict != p {
 			r.resolveImportConflict(p, conflict, lvl+1)
 			continue
 		}
